@@ -495,6 +495,105 @@ def r6_resolve_parent(ctx, rule="C14.R6"):
     return out
 
 
+PERM = 0o7777
+
+
+def _keeps_perm(v):
+    return v is not None and all(a.src is not None and (a.keep & PERM) == PERM for a in v.alts)
+
+
+def r7_mode_fidelity(ctx):
+    """'exactly the effect of the corresponding *at system call': the permission bits the caller gives (all of 07777:
+    rwx for user/group/other, set-uid, set-gid, sticky) arrive at the system call unchanged at every hop -- C entry
+    point -> Permissions, operation -> wrapper, wrapper -> raw call.  Type bits are C14.R3's business."""
+    from .c05 import _local_bits
+    F = ctx.facts
+    out = []
+    hops = [("syscalls::mkdirat", "rustix::fs::mkdirat", 2), ("syscalls::mknodat", "rustix::fs::mknodat", 3),
+            ("syscalls::openat_follow", "rustix::fs::openat", 3), ("syscalls::openat", "syscalls::openat_follow", 3),
+            (CREATE, "syscalls::mkdirat", 2), (CREATE, "syscalls::mknodat", 2),
+            ("root::RootRef::<'_>::create_file", "syscalls::openat", 3)]
+    for fn, callee, ai in hops:
+        if not F.has(fn):
+            out.append(violated("C14.R7", "%s:%s:mode" % (short(fn), callee.split("::")[-1]), "", "anchor %s not found" % fn))
+            continue
+        b = F.body(fn)
+        bits = _local_bits(ctx, b.path)
+        sites = list(b.calls(callee))
+        if not sites and fn == "syscalls::openat":
+            # the no-follow wrapper may reach the raw open itself
+            sites, ai = list(b.calls("rustix::fs::openat")), 3
+        if not sites:
+            out.append(violated("C14.R7", "%s:%s:mode" % (fn_key(b), callee.split("::")[-1]), b.where(), "%s no longer calls %s" % (fn_key(b), callee)))
+        for n, t in enumerate(sites):
+            key = "%s:%s:mode" % (fn_key(b), callee.split("::")[-1]) + (":%d" % n if len(sites) > 1 else "")
+            v = bits.arg_value(t, ai) if bits else None
+            if v is None:
+                out.append(holds("C14.R7", key, t.where(), "unreachable"))
+            elif _keeps_perm(v):
+                out.append(holds("C14.R7", key, t.where(), "mode argument keeps all of 07777 of what the function was given"))
+            else:
+                out.append(violated("C14.R7", key, t.where(), "permission bits are lost or invented on the way to %s (%r): e.g. a 01777 directory is created without the sticky bit" % (callee, v)))
+    if ctx.config == "capi":
+        from ..bits import Bits
+        for ex in ("capi::core::pathrs_inroot_mkdir", "capi::core::pathrs_inroot_mknod", "capi::core::pathrs_inroot_creat"):
+            if not F.has(ex):
+                out.append(violated("C14.R7", "%s:from_mode" % ex.split("::")[-1], "", "%s not found" % ex))
+                continue
+            bodies = [F.body(ex)] + F.closures_of(ex)
+            # the mode goes into a Permissions value, or on to the mknod entry point (mkdir = mknod with S_IFDIR)
+            fm = [(cb, t, 0) for cb in bodies for t in cb.calls("std::os::unix::fs::PermissionsExt::from_mode")]
+            fm += [(cb, t, 2) for cb in bodies for t in cb.calls("capi::core::pathrs_inroot_mknod")]
+            key = "%s:from_mode" % ex.split("::")[-1]
+            if not fm:
+                out.append(violated("C14.R7", key, F.body(ex).where(), "the mode of %s reaches neither Permissions::from_mode nor pathrs_inroot_mknod" % ex))
+            for cb, t, ai in fm:
+                v = Bits(cb, param_src=True).arg_value(t, ai)
+                if _keeps_perm(v):
+                    out.append(holds("C14.R7", key, t.where(), "Permissions built from the C mode with all of 07777 kept"))
+                else:
+                    out.append(violated("C14.R7", key, t.where(), "the C caller's permission bits are not all kept (%r)" % (v,)))
+    return out
+
+
+def r8_rename_flags_reach_kernel(ctx):
+    """rename: 'all rename flags'.  The flag-less renameat is used only when no flag was given; otherwise the flags
+    go to renameat2 unchanged -- there is no path that silently performs a plain rename instead (RENAME_NOREPLACE
+    dropped = the destination is clobbered)."""
+    from .c05 import _local_bits
+    F = ctx.facts
+    out = []
+    fn = "syscalls::renameat2"
+    if not F.has(fn):
+        return [violated("C14.R8", "renameat2:wrapper", "", "%s not found" % fn)]
+    b = F.body(fn)
+    bits = _local_bits(ctx, b.path)
+    RF = 0x7
+    for cb in [b] + F.closures_of(fn):
+        for n, t in enumerate(cb.calls("syscalls::renameat", "rustix::fs::renameat")):
+            key = "renameat2:plain-rename:%d" % n if cb is b else "renameat2:plain-rename:closure:%d" % n
+            if cb is not b:
+                out.append(violated("C14.R8", key, t.where(), "flag-less rename inside a closure of the renameat2 wrapper (a fallback that drops the caller's flags)"))
+                continue
+            st = bits.at_call(t) if bits else None
+            v = bits.val_place(st, Place({"l": 5, "p": []})) if st is not None else None
+            if st is None:
+                out.append(holds("C14.R8", key, t.where(), "unreachable"))
+            elif v is not None and (v.must_clear & RF) == RF:
+                out.append(holds("C14.R8", key, t.where(), "flag-less renameat only where the flags are known to be empty"))
+            else:
+                out.append(violated("C14.R8", key, t.where(), "flag-less renameat reachable with rename flags set (%r): RENAME_NOREPLACE/EXCHANGE/WHITEOUT would be dropped silently" % (v,)))
+    sites = list(b.calls("rustix::fs::renameat_with"))
+    if not sites:
+        out.append(violated("C14.R8", "renameat2:flags", b.where(), "the wrapper no longer calls renameat_with"))
+    for t in sites:
+        v = bits.arg_value(t, 4) if bits else None
+        ok = v is not None and all(a.src is not None and (a.keep & RF) == RF for a in v.alts)
+        (out.append(holds("C14.R8", "renameat2:flags", t.where(), "flags passed to renameat2(2) unchanged")) if ok else
+         out.append(violated("C14.R8", "renameat2:flags", t.where(), "rename flags are not passed on unchanged: %r" % (v,))))
+    return out
+
+
 RULES = [
     ("C14.R6", r6_resolve_parent, 3, False),
     ("C14.R1", r1_one_sink, 20, False),
@@ -502,4 +601,6 @@ RULES = [
     ("C14.R3", r3_type_bits, 7, False),
     ("C14.R4", r4_create_file, 3, False),
     ("C14.R5", r5_flags, 4, False),
+    ("C14.R7", r7_mode_fidelity, 7, False),
+    ("C14.R8", r8_rename_flags_reach_kernel, 2, False),
 ]
